@@ -12,6 +12,7 @@ pub mod c14;
 pub mod c16;
 pub mod c19;
 pub mod c20;
+pub mod c20_agent;
 
 use crate::core::PropSpec;
 
